@@ -598,9 +598,16 @@ func parseMonthName(parts []string, monthPos int) (string, error) {
 	return CleanSpace(monthName), nil
 }
 
+// dateWordsRegexp returns the words as regexp alternatives. The "." at the end
+// of an abbreviation must only match itself, otherwise "abt 1983" is read as
+// the word "abt " (with the space) which is not one of the known words.
+func dateWordsRegexp(words ...string) string {
+	return strings.Replace(strings.Join(words, "|"), ".", `\.`, -1)
+}
+
 var dateRegexp = regexp.MustCompile(
-	fmt.Sprintf(`(?i)^(%s|%s|%s)? ?(\d+ )?(\w+ )?(\d+)$`,
-		DateWordsAbout, DateWordsBefore, DateWordsAfter))
+	fmt.Sprintf(`(?i)^(?:(%s) )?(\d+ )?(\w+ )?(\d+)$`,
+		dateWordsRegexp(DateWordsAbout, DateWordsBefore, DateWordsAfter)))
 
 func parseDateParts(dateString string, isEndOfRange bool) Date {
 	parts := dateRegexp.FindStringSubmatch(dateString)
